@@ -1151,7 +1151,17 @@ func runServer(r *common.Run, c srvCase, class string) error {
 	if res.panicV != "" && !injected {
 		obs = "PANIC"
 	}
+	// a real mechanism other than PLAIN (which the model has concretely) on the receiving side:
+	// its observed Step results are the mechanism parameter of the model
+	isReal := false
+	if _, ok := realMech(t.used); ok && t.usedSet && !c.allScripted && t.used != "PLAIN" {
+		isReal = true
+		c.steps = t.results
+	}
 	line := c.line()
+	if isReal {
+		line, obs = canonPayloads(line, obs)
+	}
 	r.Line(line, obs)
 	r.Case(line, true, class+":"+errc)
 
@@ -1253,6 +1263,24 @@ func runServer(r *common.Run, c srvCase, class string) error {
 		}
 		if len(sent) == 0 || !strings.HasPrefix(sent[len(sent)-1], "succ/") {
 			r.Fail("server-authn-signals-success", "no-success-sent", lines, "authenticated without sending <success/>")
+		}
+		if isReal {
+			// a real mechanism other than PLAIN: the application's callback must have accepted
+			accepted := false
+			for _, p := range t.perms {
+				if strings.HasSuffix(p, "=1") {
+					accepted = true
+				}
+			}
+			if !accepted {
+				r.Fail("server-authn-needs-permission", strings.ToLower(t.used)+"-callback-not-consulted", lines,
+					"authenticated through "+t.used+" although the application's permission callback accepted nothing (verdicts: "+common.Join(t.perms, ",")+")")
+			}
+		}
+		if strings.HasPrefix(t.used, "SCRAM-") && !c.allScripted {
+			// xmpp.SASLServer hands the SASL library no salted credentials: the real SCRAM
+			// mechanisms cannot verify anybody's proof, so nobody can have been accepted
+			r.Fail("server-authn-needs-permission", "scram-unverifiable", lines, "authenticated through "+t.used+" although the receiving side has no salted credentials to verify the client proof against")
 		}
 	} else {
 		for _, s := range sent {
@@ -1516,7 +1544,7 @@ func Run(r *common.Run) error {
 	pol := probe()
 	r.Exhaustive = append(r.Exhaustive, fmt.Sprintf("probed: panics recovered by negotiateServer (error,string,other)=%s, by negotiateClient=%s; negotiateServer tests the context before reading (iterations 0..3+)=%s, after the Step=%s", pol.srvPanic, pol.cliPanic, pol.top, pol.mid))
 	genRoundC(r, rnd, pol)
-	genRoundD(r, rnd)
+	genRoundD(r, rnd, pol)
 
 	// ---- client role, scripted mechanisms: exhaustive over short peer scripts ----
 	depth := r.Pick(3, 4)
@@ -1796,7 +1824,7 @@ func sizedResp(n int, seed byte) []byte {
 // genRoundD: the full space of small mechanism shapes (where the response of a Step that says
 // "more" may be empty at ANY position) x short peer scripts, both roles; responses of every size
 // class at every position.
-func genRoundD(r *common.Run, rnd *common.Rand) {
+func genRoundD(r *common.Run, rnd *common.Rand, pol policies) {
 	cshapes := stepShapes(3, 0xA0)
 	for si, sc := range cshapes {
 		for n := 0; n <= 2; n++ {
@@ -1873,6 +1901,30 @@ func genRoundD(r *common.Run, rnd *common.Rand) {
 			}
 		}
 	}
+	// ---- receiving side: the real SCRAM mechanisms and ANONYMOUS configured on SASLServer ----
+	// (a real SCRAM client's messages; SASLServer has no salted credentials, so SCRAM can only
+	// fail closed; whatever the mechanism does is observed and replayed through the model)
+	hx := func(s string) string { return "v" + hex.EncodeToString([]byte(s)) }
+	firsts := []string{hx("n,,n=user,r=fyko+d2lbbFgONRv9qkxdawL"), hx("n,,n=user"), hx("n,a=admin,n=user,r=abc"), hx("y,,n=user,r=abc"),
+		hx("p=tls-unique,,n=user,r=abc"), hx("c=biws,r=abc,p=AAAA"), hx("garbage"), hx(",,,"), hx("n,,n=,r="), "-", "eq", "sh", "bad", plainPayloads()[0]}
+	final := hx("c=biws,r=fyko+d2lbbFgONRv9qkxdawL3rfcNHYJY1ZVvWVs7j,p=v0X8v3Bz2T0CJGbJQyF0X+HI4Ts=")
+	for _, mech := range []string{"SCRAM-SHA-1", "SCRAM-SHA-256", "ANONYMOUS"} {
+		for _, cfg := range [][]string{{mech}, {mech, "PLAIN"}, {"M1", mech}} {
+			for _, perm := range []string{"any", "none"} {
+				for _, f := range firsts {
+					for _, post := range [][]string{{}, {"R" + final}, {"R-"}, {"R" + final, "R-"}, {"B"}} {
+						peer := append([]string{"A" + mech + "/" + f}, post...)
+						_ = runServer(r, srvCase{mechs: cfg, steps: []step{{kind: "d"}}, perm: perm, peer: peer}, "srv-real-"+mech)
+					}
+				}
+				_ = runServer(r, srvCase{mechs: cfg, steps: []step{{kind: "d"}}, perm: perm, peer: []string{"R" + final}}, "srv-real-"+mech)
+				for _, w := range []string{"F0", "S1", "W0"} {
+					_ = runServer(r, srvCase{mechs: cfg, steps: []step{{kind: "d"}}, perm: perm, peer: []string{"A" + mech + "/" + firsts[0], "R" + final}, ctxOn: true, when: w, top: pol.top, mid: pol.mid}, "srv-real-ctx-"+mech)
+				}
+			}
+		}
+	}
+
 	// ---- random shapes: longer, empty responses anywhere ----
 	nr := r.Pick(400, 6000)
 	for i := 0; i < nr; i++ {
